@@ -352,6 +352,16 @@ func (p *Pruner) applyTimeFloor(standardFloor uint64) uint64 {
 }
 
 func (p *Pruner) onNewBlock(ctx context.Context, block *core.Block) error {
+	// A new head below the sampled min-age height means a reorg replaced
+	// blocks the sample had already classified as old. If the replacement
+	// is still within the min-age window, lower the sample to it so the
+	// block stays protected until the next tick re-derives the floor.
+	if p.minAge > 0 &&
+		block.Number < p.latestSampledHeight &&
+		withinTimeWindow(block.Timestamp, p.minAge) {
+		p.latestSampledHeight = block.Number
+	}
+
 	l1Head, err := core.GetL1Head(p.database)
 	if err != nil {
 		if errors.Is(err, db.ErrKeyNotFound) {
